@@ -47,6 +47,36 @@ class ReplayMismatch(Exception):
     pass
 
 
+class deadline:
+    """`with deadline(20, "precompute-did-not-terminate"):` -- an untraced region of the code under test that has not returned after
+    `seconds` of wall time raises Violation(key).  (CrossHair's own per-path deadline is only checked while tracing.)  Only
+    for regions that take milliseconds on the unchanged tree."""
+
+    def __init__(self, seconds: float, key: str):
+        self.seconds, self.key = seconds, key
+
+    def __enter__(self):
+        import signal
+        import threading
+
+        self.active = threading.current_thread() is threading.main_thread()
+        if self.active:
+            def on_alarm(signum, frame):
+                raise Violation(self.key, f"no result after {self.seconds} s")
+
+            self.old = signal.signal(signal.SIGALRM, on_alarm)
+            signal.setitimer(signal.ITIMER_REAL, self.seconds)
+        return self
+
+    def __exit__(self, *a):
+        if self.active:
+            import signal
+
+            signal.setitimer(signal.ITIMER_REAL, 0)
+            signal.signal(signal.SIGALRM, self.old)
+        return False
+
+
 # ----------------------------------------------------------------------------------------------
 # solver accounting
 # ----------------------------------------------------------------------------------------------
